@@ -50,7 +50,7 @@ ASSUMPTIONS = ["quantities whose value is a non-array object are compared by typ
                "the in-place F+H fast path of curvature_reg_matrix (buffer reused, cache entry dropped) is legitimate: later reads recompute F"]
 QUICK_JOBS = 12
 MIN_MONITORS = {"*": {"input_fingerprint": 200, "cache.hit_unchanged": 200, "order.matches_baseline": 200, "derived.consistent": 100, "derived.matches_rebuild": 100,
-                      "defaults.unchanged": 3, "deterministic": 10, "deterministic.simulator_seed": 4}}
+                      "defaults.unchanged": 3, "deterministic": 10, "deterministic.simulator_seed": 4, "sweep.apply_over_sampling_keeps_own_scheme": 2}}
 SKIP_NAMES = ("plot", "output", "fits", "hdu", "visual", "json", "pickle", "run_time", "profile", "logger", "instance_flatten", "instance_unflatten")
 SKIP_QUANT = {"reconstruction_noise_map_with_covariance", "reconstruction_noise_map", "reconstruction_noise_map_dict", "errors", "errors_with_covariance",
               "errors_dict", "T", "flat", "base", "ctypes", "data_ptr"}
@@ -104,7 +104,8 @@ def setup(ctx):
     for label, fn, arg in (("factory.inversion_from.settings", fac.inversion_from, "settings"), ("factory.inversion_from.preloads", fac.inversion_from, "preloads"),
                            ("factory.inversion_imaging_from.settings", fac.inversion_imaging_from, "settings"),
                            ("factory.inversion_interferometer_from.settings", fac.inversion_interferometer_from, "settings"),
-                           ("Imaging.__init__.over_sampling", aa.Imaging.__init__, "over_sampling")):
+                           ("Imaging.__init__.over_sampling", aa.Imaging.__init__, "over_sampling"),
+                           ("Imaging.apply_over_sampling.over_sampling", aa.Imaging.apply_over_sampling, "over_sampling")):
         f = getattr(fn, "__verif_original__", fn)
         try:
             d = inspect.signature(f).parameters[arg].default
@@ -526,6 +527,17 @@ def run_sweep(ctx, i):
         do(lambda: un.apply_noise_scaling(mask=mask))
         do(lambda: un.apply_noise_scaling(mask=mask, signal_to_noise_value=3.0))
         do(lambda: un.trimmed_after_convolution_from(kernel_shape=(3, 3)))
+        osd = T.own_state("over_sampling_argument", aa.OverSamplingDataset(pixelization=aa.OverSamplingUniform(sub_size=3)))
+        T.own_state("over_sampling_argument.pixelization", osd.pixelization)
+        un2 = do(lambda: aa.Imaging(data=data, noise_map=noise, psf=psf, over_sampling=aa.OverSamplingDataset(uniform=aa.OverSamplingUniform(sub_size=4))))
+        r1 = do(lambda: un.apply_over_sampling(over_sampling=osd))
+        r2 = do(lambda: un2.apply_over_sampling(over_sampling=osd)) if un2 is not None else None
+        if r1 is not None and r2 is not None:
+            # equal inputs -> equal results whatever was applied before: the second dataset keeps its own uniform scheme (4x4)
+            subs2 = _np(r2.grids.uniform.over_sampler.sub_size) if hasattr(r2.grids.uniform, "over_sampler") else None
+            ctx.check(subs2 is not None and int(np.max(subs2)) == 4 and int(np.min(subs2)) == 4, "sweep.apply_over_sampling_keeps_own_scheme",
+                      got=subs2, why="a shared OverSamplingDataset argument carried the first dataset's scheme into the second")
+        do(lambda: un.apply_over_sampling())
         do(lambda: un.apply_over_sampling(over_sampling=aa.OverSamplingDataset(uniform=aa.OverSamplingUniform(sub_size=2))))
         do(lambda: un.signal_to_noise_map)
         do(lambda: un.signal_to_noise_max)
@@ -573,8 +585,28 @@ def run_sweep(ctx, i):
                   "mapped_reconstructed_data_dict", "reconstruction_dict", "regularization_term", "log_det_curvature_reg_matrix_term",
                   "log_det_regularization_matrix_term", "curvature_matrix", "data_vector"):
             do(lambda: getattr(inv, q))
-        pre = T.own_state("preloads", aa.Preloads(curvature_matrix=own("preloaded_curvature", _np(inv.curvature_matrix).copy()),
-                                                  regularization_matrix=own("preloaded_regularization", _np(inv.regularization_matrix).copy())))
+        slots = {"curvature_matrix": own("preloaded_curvature", _np(inv.curvature_matrix).copy()),
+                 "regularization_matrix": own("preloaded_regularization", _np(inv.regularization_matrix).copy())}
+        if i % 4 >= 2:
+            # the less common slots, one at a time (values taken from an identical fresh inversion)
+            inv_src = aa.Inversion(dataset=case["ds"], linear_obj_list=objs, settings=st)
+            extra = {}
+            for slot, attr in (("curvature_matrix_mapper_diag", "_curvature_matrix_mapper_diag"), ("data_vector_mapper", "_data_vector_mapper"),
+                               ("operated_mapping_matrix", "operated_mapping_matrix")):
+                try:
+                    v = getattr(inv_src, attr)
+                    if v is not None:
+                        extra[slot] = own("preloaded_" + slot, _np(v).copy())
+                except Exception:
+                    pass
+            if extra:
+                names_ = sorted(extra)
+                pick = names_[(i // 4) % len(names_)]
+                slots = {pick: extra[pick]}
+                if all(isinstance(o, aa.AbstractMapper) for o in objs) or pick != "data_vector_mapper":
+                    pass
+                ctx.classes["sweep_preload_slot:" + pick] += 1
+        pre = T.own_state("preloads", aa.Preloads(**slots))
         for rep in range(2):
             inv2 = do(lambda: aa.Inversion(dataset=case["ds"], linear_obj_list=objs, settings=st, preloads=pre))
             if inv2 is not None:
